@@ -232,6 +232,21 @@ theorem evm_log_ok {op : Nat} (hop : (f.code[f.pc]?).getD 0 = op) (h : IsLog op)
      simp only [Nat.reduceSub] at hn
      simp [Evm.isPush, hn, hs, hm, touch_this, touch_mem, touch_pc])
 
+theorem evm_sha3 (hop : (f.code[f.pc]?).getD 0 = 0x20) (hl : ¬ f.stack.length > 1024) {off len : Nat} {s : List Nat}
+    (hst : f.stack = off :: len :: s) (hok : len = 0 ∨ off + len ≤ p.memLimit) :
+    Evm.step p w f = .next w { f.touch off len with
+      stack := p.keccak (Evm.readBytes f.mem off len) % Evm.W :: s, pc := f.pc + 1 } := by
+  have hm := memOk_of hok
+  unfold Evm.step; simp only [hop, hl, ↓reduceIte]; simp only [hst]
+  simp [hm, touch_mem, touch_pc]
+
+theorem evm_sha3_short (hop : (f.code[f.pc]?).getD 0 = 0x20) (hl : ¬ f.stack.length > 1024)
+    (hst : f.stack.length < 2) : Evm.step p w f = .halt w .stackUnderflow := by
+  unfold Evm.step; simp only [hop, hl, ↓reduceIte]
+  match h : f.stack, hst with
+  | [], _ => rfl
+  | [_], _ => rfl
+
 theorem evm_extcodesize (hop : (f.code[f.pc]?).getD 0 = 0x3b) (hl : ¬ f.stack.length > 1024) :
     Evm.step p w f = Evm.op1 w f fun a => ((w.codeOf (Evm.addrMask a)).getD []).length := by
   unfold Evm.step; simp only [hop, hl, ↓reduceIte]
